@@ -26,21 +26,26 @@ from . import static
 ARGPAR = [[], [1], [2], [1]]  # object, X, Y(X), Z
 
 
-def gen_hierarchy(rng, nmax, allow_latemark):
+def gen_hierarchy(rng, nmax, allow_latemark, rename=False):
     hosts = []
     mid = [0]
+    pn = ["x"]
 
-    def defs(n, marked_first, latemark=False):
-        ts = rng.sample([1, 2, 3, 4], n)
+    def defs(n, marked_first, latemark=False, ts=None):
+        ts = ts or rng.sample([1, 2, 3, 4], n)
+        n = len(ts)
         out = []
         for j, t in enumerate(ts):
             mid[0] += 1
             body = rng.choice(["leaf", "leaf", "next", {"to": rng.choice([2, 3, 4])}])
-            out.append({"id": f"m{mid[0]}", "t": t, "marked": bool((marked_first and j == 0) or (latemark and j == n - 1 and n > 1)), "body": body})
+            out.append({"id": f"m{mid[0]}", "t": t, "pn": pn[0], "marked": bool((marked_first and j == 0) or (latemark and j == n - 1 and n > 1)), "body": body})
         return out
 
     n = rng.randint(2, nmax)
     for k in range(1, n + 1):
+        if rename:
+            # every class body names the dispatched parameter its own way
+            pn[0] = rng.choice(["x", "y", "y", "z"])
         earlier = list(range(1, k))
         has_f = [b for b in earlier if hosts[b - 1]["hasf"]]
         if k == 1 or rng.random() < 0.2:
@@ -71,7 +76,16 @@ def gen_hierarchy(rng, nmax, allow_latemark):
         basef = any(hosts[b - 1]["hasf"] for b in bases)
         marked = basef and rng.random() < 0.7
         latemark = allow_latemark and basef and not marked and nd >= 2 and rng.random() < 0.3
-        body = defs(nd, marked, latemark) if mc else defs(min(nd, 1), False)
+        ts = None
+        if rename and marked and mc and rng.random() < 0.6:
+            # override everything inherited (same annotations, renamed parameter)
+            inh = set()
+            for b in bases:
+                inh |= eff_types(hosts, b)
+            if 1 <= len(inh) <= 3:
+                ts = sorted(inh)
+                rng.shuffle(ts)
+        body = defs(nd, marked, latemark, ts=ts) if mc else defs(min(nd, 1), False)
         hosts.append({"bases": bases, "root": "none", "mc": mc, "body": body, "hasf": bool(body) or basef})
     # reject hierarchies where two bases contribute the same annotation and the body does not override it (statement silent)
     for H in hosts:
@@ -101,7 +115,7 @@ def gen_merge_template(rng):
 
     def d(t, marked, body="leaf"):
         mid[0] += 1
-        return {"id": f"m{mid[0]}", "t": t, "marked": marked, "body": body}
+        return {"id": f"m{mid[0]}", "t": t, "pn": "x", "marked": marked, "body": body}
 
     hosts = []
     hosts.append({"bases": [], "root": rng.choice(["meta", "base"]), "mc": True,
@@ -173,10 +187,16 @@ def run(prop, tier, seed, replay=None):
         if tries % 6 == 5:
             hosts = gen_merge_template(rng)
         else:
-            hosts = gen_hierarchy(rng, 4 if not thorough else 6, allow_latemark=(tries % 10 == 0))
+            hosts = gen_hierarchy(rng, 4 if not thorough else 6, allow_latemark=(tries % 10 == 0), rename=(tries % 3 == 1))
         if hosts is None:
             continue
         jobs.append({"id": f"C17-{len(jobs)}", "world": {"parents": ARGPAR, "hosts": hosts, "methods": []}, "args": [1, 2, 3, 4]})
+    # the recorded late-marker shape (KF-latemark), always present
+    late = [{"bases": [], "root": "meta", "mc": True, "body": [{"id": "m1", "t": 2, "pn": "x", "marked": False, "body": "leaf"},
+                                                             {"id": "m2", "t": 1, "pn": "x", "marked": False, "body": "leaf"}]},
+            {"bases": [1], "root": "none", "mc": True, "body": [{"id": "m3", "t": 4, "pn": "x", "marked": False, "body": "leaf"},
+                                                               {"id": "m4", "t": 3, "pn": "x", "marked": True, "body": "leaf"}]}]
+    jobs.append({"id": f"C17-{len(jobs)}", "world": {"parents": ARGPAR, "hosts": late, "methods": []}, "args": [1, 2, 3, 4]})
     res = pool.run(workers.class_cases, jobs)
     full = {c["id"]: c for c in res}
     cases = []
@@ -187,7 +207,7 @@ def run(prop, tier, seed, replay=None):
             if st["op"] != "probe":
                 continue
             o = st["obs"]
-            steps.append({"call": st["call"], "host": st["host"], "after": st["after"],
+            steps.append({"call": st["call"], "host": st["host"], "after": st["after"], "bykw": st.get("bykw", ""),
                           "obs": {"kind": o["kind"], "entered": o["entered"], "resolve": o["resolve"], "slf": o["slf"]}})
             idx.append(q)
         c["_idx"] = idx
